@@ -47,6 +47,19 @@ func isPointerGuards(b *ssa.BasicBlock) []string {
 func rulePtrChase(c *Ctx) []Ob {
 	s := newSink(c, "PTR-CHASE")
 	headerRoutines := map[string]bool{"appendListHeader": true, "appendMapHeader": true, "encodedListSize": true, "encodedMapSize": true}
+	// the encode routines installed for list / map descriptors receive a slice / map header just as the header helpers do (the
+	// registrations are checked against the kinds by T5 / T6): a header helper written out in such a routine is the same access
+	mapRoutines := map[string]bool{"appendMapHeader": true, "encodedMapSize": true, "appendMapAnyAny": true}
+	regs, _ := c.registrations()
+	for _, r := range regs {
+		headerRoutines[r.fn.Name()] = true
+		if !r.isList {
+			mapRoutines[r.fn.Name()] = true
+		}
+	}
+	for _, g := range []string{"appendMapAnyAny", "appendListAny"} {
+		headerRoutines[g] = true
+	}
 	for _, fn := range c.ModuleFuncs(pkgReflect) {
 		if fn.Name() == "testhack" || strings.HasPrefix(fn.Name(), "init") {
 			continue
@@ -124,7 +137,7 @@ func rulePtrChase(c *Ctx) []Ob {
 							s.bad(key, pos, "nil test reads the first word of a slot that is not known to be pointer-shaped (no CanSkipEncodeIfNil guard, not a list/map header routine)")
 						}
 					case "maphdr":
-						s.check(headerRoutines[fn.Name()], key, pos, "map header word passed to maplen in a map header routine", "maplen of a slot outside the map header routines")
+						s.check(mapRoutines[fn.Name()], key, pos, "map header word passed to maplen in a map header routine", "maplen of a slot outside the map header routines")
 					case "chase":
 						guards := isPointerGuards(b)
 						if len(guards) == 0 {
